@@ -35,7 +35,8 @@ func HistCheckFor(prop string) (HistCheck, bool) {
 		g.WClean, g.WSave = 4, 3
 		g.MaxDepths = []int{0, 0, 1, 2, 3, 5, 144}
 		g.SaveAroundRefusal = true
-		hc.Rule = "histories with an adversarial next-header chooser (orphan, duplicate of any known header, fork exactly at / one beyond max depth, child of a deep side tip, retry of a refused header), MaxBranchDepth from 0"
+		g.WMark, g.WUnmark = 2, 1 // the "marked invalid" answer: headers marked at run time, resubmitted, unmarked, resubmitted
+		hc.Rule = "histories with an adversarial next-header chooser (orphan, duplicate of any known header, fork exactly at / one beyond max depth, child of a deep side tip, retry of a refused header, resubmission of headers marked invalid at run time and of their descendants), MaxBranchDepth from 0"
 	case "C09":
 		g.WClean, g.WSave, g.WReload = 10, 2, 5
 		g.PruneDepths = []int{0, 0, 8, 12, 20}
